@@ -419,4 +419,78 @@ proof fn deep_step(s: GEl, p: Seq<RdItem>, known: Seq<String>, n: String, d: nat
     }
 }
 
+// ---------------------------------------------------------------- the two public entry points, statement level
+pub open spec fn all_named(ts: Seq<Tag>, n: String) -> bool { forall|i: int| 0 <= i < ts.len() ==> utf8_str((#[trigger] ts[i]).name) == n }
+pub proof fn lemma_occ_zero(ts: Seq<Tag>, n: String, m: String)
+    requires all_named(ts, n), m != n,
+    ensures occ(ts, m) == 0,
+    decreases ts.len()
+{
+    if ts.len() > 0 {
+        assert(utf8_str(ts[0].name) == n);
+        assert(forall|i: int| 0 <= i < ts.drop_first().len() ==> (#[trigger] ts.drop_first()[i]) == ts[i + 1]);
+        lemma_occ_zero(ts.drop_first(), n, m);
+    }
+}
+/// if every element at the top level of the stream is called n and the node has at most the one child n, the result has
+/// exactly the children it had plus possibly n: in particular its first child is the child called n
+pub proof fn lemma_single_root(s: GEl, p: Seq<RdItem>, n: String)
+    requires
+        g_wf(s), all_named(level_tags(p), n),
+        forall|i: int| 0 <= i < s.kids.len() ==> (#[trigger] s.kids[i]).val().name == n,
+        g_build(s, p, Seq::empty()).0 is Some,
+    ensures
+        ({
+            let w = g_build(s, p, Seq::empty()).0->Some_0;
+            &&& w.kids.len() <= 1
+            &&& (w.kids.len() == 1 ==> g_has(w.kids, n) && w.kids[0] == g_kid(w.kids, n))
+        }),
+{
+    let w = g_build(s, p, Seq::empty()).0->Some_0;
+    lemma_build_wf(s, p, Seq::empty());
+    assert forall|i: int| 0 <= i < w.kids.len() implies (#[trigger] w.kids[i]).val().name == n by {
+        let m = w.kids[i].val().name;
+        lemma_kid_is(w.kids, m, i);
+        if m != n {
+            lemma_level(s, p, Seq::empty(), m);
+            lemma_occ_zero(level_tags(p), n, m);
+            lemma_has_witness(s.kids, m);
+        }
+    }
+    if w.kids.len() >= 2 { assert(w.kids[0].val().name != w.kids[1].val().name); }
+    if w.kids.len() == 1 { lemma_kid_is(w.kids, n, 0); }
+}
+/// THEOREM (public API, statement level): extending the structure `prev` with a document whose top-level elements are all
+/// called like `prev` yields a tree that satisfies the closed form, to every depth d, with respect to `prev` and the
+/// occurrences of that element in the document
+pub proof fn theorem_extend(nm: String, prev: GEl, p: Seq<RdItem>, d: nat)
+    requires g_wf(prev), all_named(level_tags(p), prev.name), g_build(g_wrap(nm, prev), p, Seq::empty()).0 is Some,
+    ensures
+        g_first_child(g_wrap(nm, prev), p) is Some,
+        deep_post(Some(GEl { position: if prev.position is None { Some(0usize) } else { prev.position }, ..prev }),
+                  g_first_child(g_wrap(nm, prev), p)->Some_0, level_occs(p, prev.name), d),
+{
+    let s = g_wrap(nm, prev);
+    let n = prev.name;
+    let prev2 = GEl { position: if prev.position is None { Some(0usize) } else { prev.position }, ..prev };
+    assert(g_wf(prev2));
+    assert(g_wf(s)) by { assert(s.kids.len() == 1); assert(s.kids[0].val() == prev2); }
+    lemma_kid_is(s.kids, n, 0);
+    lemma_single_root(s, p, n);
+    lemma_build_kids_len(s, p, Seq::empty());
+    theorem_deep(s, p, Seq::empty(), n, d);
+}
+/// THEOREM (public API, statement level): the structure inferred from a first document whose top-level elements are all
+/// called n satisfies the closed form, to every depth d, with respect to the occurrences of n (nothing known before)
+pub proof fn theorem_into(nm: String, n: String, p: Seq<RdItem>, d: nat)
+    requires all_named(level_tags(p), n), g_first_child(g_root(nm), p) is Some,
+    ensures deep_post(None, g_first_child(g_root(nm), p)->Some_0, level_occs(p, n), d),
+{
+    let s = g_root(nm);
+    assert(g_wf(s));
+    lemma_single_root(s, p, n);
+    theorem_deep(s, p, Seq::empty(), n, d);
+    lemma_kid_none(s.kids, n);
+}
+
 } // verus!
